@@ -168,6 +168,9 @@ def run(tier):
         rep.merge(sh)
     # --- driver E: expressions
     eitems = list(gen_expr.e1_programs()) + list(gen_expr.e2_programs(2 if tier == "quick" else 3))
+    e3 = list(gen_expr.e3_programs())
+    rep.bounds["E3.operator_pairs_x_nestings"] = len(e3)
+    eitems += e3
     rep.bounds["E.recipes"] = len(eitems)
     for sh in common.pmap_shards(_worker_expr, eitems, order_seed=rep.seed):
         rep.merge(sh)
